@@ -6,6 +6,7 @@ import vlib
 RE_REJ = re.compile(r'<<\s*"REJECT",\s*(\d+),\s*"(C\d+):([^"]*)",\s*(\d+)\s*>>')
 
 PROFILES_FOR = {
+    "C01": ["wait"],
     "C04": ["soup", "contend", "wait", "mix", "res", "end"],
     "C05": ["soup", "contend", "res", "mix", "end"],
     "C06": ["soup", "order", "condorder", "contend", "res", "pool", "buf", "queue", "cond"],
@@ -115,12 +116,29 @@ def trace_stats(trace):
 
 def run_kernel_check(pid, tier, replay, level_text_extra=""):
     v = vlib.Verdict(pid, "model_checking", tier)
-    v.assumptions = [
-        "monitors (spec/KMon.tla) demand only what the property states; freedom the property leaves is left open",
-        "programs are valid by construction: the interpreter skips instructions whose documented precondition is not met",
-        "durations/times are small integers (exact in doubles); guard-level events come from hooks H2/H3",
-        "a library abort inside a program is reported by the C10 check; here it only ends that program",
-    ]
+    v.assumptions = list(KERNEL_ASSUMPTIONS)
+    nprog, nontriv, crashes = kernel_part(pid, tier, replay, v)
+    v.cov["traces_validated_against_impl"] = nprog
+    v.cov["evaluations"] = nprog
+    v.cov["distinct_nontrivial"] = nontriv
+    v.cov["crashed_programs"] = crashes
+    v.cov["rule"] = KERNEL_RULE
+    return v.finish()
+
+
+KERNEL_ASSUMPTIONS = [
+    "monitors (spec/KMon.tla) demand only what the property states; freedom the property leaves is left open",
+    "programs are valid by construction: the interpreter skips instructions whose documented precondition is not met",
+    "durations/times are small integers (exact in doubles); guard-level events come from hooks H2/H3",
+    "a library abort inside a program is reported by the C10 check; here it only ends that program",
+]
+KERNEL_RULE = ("one case = one program (processes with scripts + pre-scheduled events) run on the real kernel; non-trivial = at least one "
+               "process blocked on a guard, a process or an event; programs differ by seed/index (random) or are distinct by construction (TLC export)")
+
+
+def kernel_part(pid, tier, replay, v):
+    """model-check the kernel configurations of `pid`, replay exported / regression / random programs on the real kernel,
+    fold the monitors, report the rules of `pid` into verdict v; returns (programs, non-trivial programs, crashed programs)"""
     out = vlib.outdir(pid)
     vlib.build_lib(pid, "rel")
     variants = [("rel", vlib.cc_harness(pid, "rel", "kernel_replay"))]
@@ -184,10 +202,4 @@ def run_kernel_check(pid, tier, replay, level_text_extra=""):
                 txt = f.read().split("end\n")
             if txt and txt[0].strip():
                 v.sample({"program (%s)" % desc: txt[len(txt) // 2].strip().split("\n")})
-    v.cov["traces_validated_against_impl"] = nprog
-    v.cov["evaluations"] = nprog
-    v.cov["distinct_nontrivial"] = nontriv
-    v.cov["crashed_programs"] = crashes
-    v.cov["rule"] = ("one case = one program (processes with scripts + pre-scheduled events) run on the real kernel; non-trivial = at least one "
-                     "process blocked on a guard, a process or an event; programs differ by seed/index (random) or are distinct by construction (TLC export)")
-    return v.finish()
+    return nprog, nontriv, crashes
